@@ -133,10 +133,17 @@ def airborneVelocity (bits : Bits) : Res (Option Velocity) :=
   if tcB bits ≠ some 19 then .rte else do
   let mb := bits.drop 32
   let subtype ← bin2intR (slice 5 8 mb)
-  let f1 ← bin2intR (slice 14 24 mb)
-  let f2 ← bin2intR (slice 25 35 mb)
-  if (subtype = 1 ∨ subtype = 2) ∧ (f1 = 0 ∨ f2 = 0) then pure none else do
+  -- `subtype in (1, 2) and (bin2int(mb[14:24]) == 0 or bin2int(mb[25:35]) == 0)`, short-circuit order
+  let early ← if subtype = 1 ∨ subtype = 2 then do
+      let f1 ← bin2intR (slice 14 24 mb)
+      if f1 = 0 then pure true else do
+        let f2 ← bin2intR (slice 25 35 mb)
+        pure (decide (f2 = 0))
+    else pure false
+  if early then pure none else do
   let b13 ← idxR mb 13
+  let f1 ← if (subtype = 1 ∨ subtype = 2) ∨ b13 then bin2intR (slice 14 24 mb) else pure 0
+  let f2 ← bin2intR (slice 25 35 mb)
   let b24 ← idxR mb 24
   let (spd, dir, spdType, dirType) : Option Int × Dir × String × String :=
     if subtype = 1 ∨ subtype = 2 then
